@@ -6,6 +6,7 @@ import CedarVerif.Lemmas.PartialBridge
 import CedarVerif.Lemmas.PartialSubst5
 import CedarVerif.Lemmas.PartialStore5
 import CedarVerif.Lemmas.PartialStore6
+import CedarVerif.Lemmas.PartialStore7
 /-
 C13 — partial evaluation with unknowns is sound.  Property theorems only (helpers: Lemmas/Partial*.lean).
 Model: Cedar/Partial.lean (`pinterp`, `PartialResponse`, `reauthorize`).
@@ -51,8 +52,10 @@ Still missing w.r.t. `PinterpSoundFull`:
   * the one-round statement on the *unsubstituted* store for stores whose residual attributes are all direct unknowns is
     proved at expression level (`pinterp_sound_store_reauth_direct`), not lifted to `reauthorize` on policy sets
     (`PolicyAgrees` / `reauthorize_core` fix the second-pass store to `.ofConcrete es`);
-  * `CtxCompletes` / `StoreCompletes` are stated through `evaluate ∘ substUnk` of the residual attribute / context, not
-    through `RestrictedEvaluator` (`rinterp`) as `Context::substitute` computes it; `concretize_request = ok` stays a hypothesis;
+  * `StoreCompletes` is stated through `evaluate ∘ substUnk` of a residual attribute, not through `RestrictedEvaluator`
+    (`rinterp`); for contexts and request entries the link to what `concretize_request` computes is proved step by step
+    (`restricted_eval_sound`, `concretize_entry_gives_conc`, `context_substitute_gives_completes`) but `PS.Concretizes2` and
+    `concretize_request = ok` are still separate hypotheses of `partial_authorization_sound`;
   * calls of the `unknown` function in the policy text (no concrete counterpart: `Expr::substitute` does not look into them).
 -/
 namespace Cedar.C13
@@ -753,5 +756,35 @@ example :
   obtain ⟨⟨pr2, h1, h2, _, h4⟩, _⟩ := partial_authorization_sound PS.srSigma PS.srReq PS.srEs PS.srPreq PS.srPes ps ⟨trivial, trivial⟩ hstore
     PS.sr_storeCompletes.1 PS.sr_storeCompletes.2 hfrag rfl (by decide +kernel) hf1 hf2
   exact ⟨by decide +kernel, by decide +kernel, pr2, h1, h2, h4⟩
+
+/-- **restricted_eval_sound** — the restricted evaluator (`RestrictedEvaluator::partial_interpret`, which evaluates
+contexts and attribute values) is sound for the evaluator: a *value* it returns is the value of the expression for every
+request, store and slot environment.  Consequently the hypotheses `PS.Concretizes2` of the theorems above are what
+`concretize_request` computes: `concretize_entry_gives_conc` for principal / action / resource,
+`context_substitute_gives_completes` for a residual context (`Context::substitute`). -/
+theorem restricted_eval_sound (req : Request) (es : Entities) (env : SlotEnv) (n : Nat) (e : Expr) (v : Value)
+    (h : rinterp n e = .val v) : evaluate req es env e = .ok v :=
+  PS.rinterp_sound req es env n e v h
+
+theorem concretize_entry_gives_conc {σ : Mapper} {en : UidEntry} {key : String} {uid : EntityUID}
+    (h : en.concretize key σ = .ok (.known uid)) : en.Conc σ key uid :=
+  PS.conc_of_concretize h
+
+theorem context_substitute_gives_completes (σ : Mapper) (es : Entities) {kvs : List (String × Expr)} {ctx : List (String × Value)}
+    (hf : PS.Frag2 σ (.record kvs)) (h : (PContext.residual kvs).substitute σ = .ok (.value ctx)) :
+    PS.CtxCompletes σ es (some (.residual kvs)) ctx :=
+  PS.ctxCompletes_of_substitute σ es hf h
+
+/-- non-vacuity: the residual context `{lim: unknown("l": long)}` under `l ↦ 7` -/
+example :
+    let σ : Mapper := [("l", .prim (.int 7))]
+    (PContext.residual [("lim", .unknown "l" (some .long))]).substitute σ = .ok (.value [("lim", .prim (.int 7))]) ∧
+    PS.CtxCompletes σ [] (some (.residual [("lim", .unknown "l" (some .long))])) [("lim", .prim (.int 7))] := by
+  intro σ
+  have hl : PS.UnkOK σ "l" (some .long) := ⟨_, rfl, trivial, by intro t ht; cases ht; rfl⟩
+  have hf : PS.Frag2 σ (.record [("lim", .unknown "l" (some .long))]) := by
+    refine .record (by decide) ?_
+    intro kv hkv; simp only [List.mem_cons, List.not_mem_nil, or_false] at hkv; subst hkv; exact .unknown _ _ hl
+  exact ⟨rfl, context_substitute_gives_completes σ [] hf rfl⟩
 
 end Cedar.C13
